@@ -29,7 +29,9 @@ T_R == IsEvent("r") /\ LET x == Rec[l] IN Read(x.pipe, x.off, x.len, x.ok) /\ UN
 T_Eos == IsEvent("eos") /\ Eos(Rec[l].pipe, Rec[l].total) /\ UNCHANGED closing
 T_ClientDone == IsEvent("client_done") /\ ClientDone(Rec[l].k) /\ UNCHANGED closing
 T_End == IsEvent("end") /\ UNCHANGED pvars /\ UNCHANGED closing
+\* the independent implementation issued a spare connection id (its own bookkeeping accepted it)
+T_NewScid == IsEvent("quiche_new_scid") /\ Rec[l].ok /\ UNCHANGED pvars /\ UNCHANGED closing
 \* no action for: rerr, werr, stall, panic, quiche_send_error, quiche_recv_error
-TNext == T_Reset \/ T_Hs \/ T_Closed \/ T_Open \/ T_WStart \/ T_W \/ T_FinStart \/ T_Fin \/ T_R \/ T_Eos \/ T_ClientDone \/ T_End
+TNext == T_Reset \/ T_Hs \/ T_Closed \/ T_Open \/ T_WStart \/ T_W \/ T_FinStart \/ T_Fin \/ T_R \/ T_Eos \/ T_ClientDone \/ T_End \/ T_NewScid
 TSpec == TInit /\ [][TNext]_<<pvars, l, closing>>
 =============================================================================
